@@ -69,9 +69,12 @@ func Open(ctx context.Context, configs ...Config) (c *Cluster, err error) {
 		shutdown: signal.NewHardShutdown(sCtx, cancel),
 		Config:   cfg,
 	}
+	// The error paths below return a nil cluster, which also clears the named result:
+	// keep our own reference for the shutdown.
+	opened := c
 	defer func() {
 		if err != nil {
-			err = errors.Combine(err, c.shutdown.Close())
+			err = errors.Combine(err, opened.shutdown.Close())
 		}
 	}()
 
